@@ -66,12 +66,14 @@ structure Sizes where
   sender : IDSize
   room : IDSize
   roomValid : Bool     -- spec.NewRoomID accepts the room ID (grammar incl. the 255-byte limit)
+  create : Bool        -- type m.room.create with state key "" (eventV3.go checkRoomID treats such events apart)
   deriving DecidableEq, Repr
 
 /-- which room-ID check the version's parse function applies (column newEventFromTrustedJSONFunc) -/
 inductive RoomCheck where
   | checkID       -- newEventFromTrustedJSONV1 / V2: checkRoomIDField
-  | prefixOnly    -- newEventFromTrustedJSONV3: checkRoomID = "starts with !", then spec.NewRoomID (non-create events)
+  | prefixOnly    -- newEventFromTrustedJSONV3: checkRoomID = "starts with !", then spec.NewRoomID (non-create events);
+                  -- create events: only the two length limits, on whatever room_id member is present
   deriving DecidableEq, Repr
 
 /-- per-version parameters, all regenerated from the source (VGen) by the driver / the theorems -/
@@ -123,11 +125,15 @@ def checkFields (p : Params) (s : Sizes) : Outcome :=
   else if s.sender.bytes > p.maxID then .tooLargePersistable
   else .ok
 
-/-- the room-ID check of the parse functions (non-create events) -/
+/-- the room-ID check of the parse functions.  `checkRoomID` of eventV3.go holds the room_id member of a CREATE event
+    only to the two length limits (its room ID derives from the event ID; no event is returned on either overflow,
+    so neither is persistable); `checkRoomIDField` makes no difference between event types. -/
 def roomCheckOutcome (p : Params) (s : Sizes) : Outcome :=
   match p.roomCheck with
   | .checkID => checkRoomIDField p.maxID s.room s.roomValid
-  | .prefixOnly => if !s.room.sigilOk then .other else if s.roomValid then .ok else .other
+  | .prefixOnly =>
+    if s.create then (if s.room.cp > p.maxID then .tooLarge else if s.room.bytes > p.maxID then .tooLarge else .ok)
+    else if !s.room.sigilOk then .other else if s.roomValid then .ok else .other
 
 /-- NewEventFromTrustedJSON followed by CheckFields (= the tail of EventBuilder.Build) -/
 def verdict (p : Params) (s : Sizes) : Outcome :=
@@ -148,7 +154,8 @@ def idSize (sigil : UInt8) (id : BS) : IDSize :=
 def sizesOf (jsonLen : Nat) (type : BS) (stateKey : Option BS) (sender room : BS) : Sizes :=
   { jsonLen := jsonLen, typeCP := runeCount type, typeBytes := type.length,
     hasStateKey := stateKey.isSome, skCP := runeCount (stateKey.getD []), skBytes := (stateKey.getD []).length,
-    sender := idSize 0x40 sender, room := idSize 0x21 room, roomValid := (parseRoomID room).isSome }
+    sender := idSize 0x40 sender, room := idSize 0x21 room, roomValid := (parseRoomID room).isSome,
+    create := type == [0x6D, 0x2E, 0x72, 0x6F, 0x6F, 0x6D, 0x2E, 0x63, 0x72, 0x65, 0x61, 0x74, 0x65] && stateKey == some [] }
 
 /-! ## SPECIFICATION (from the property text)
 
@@ -164,7 +171,10 @@ def sizesOf (jsonLen : Nat) (type : BS) (stateKey : Option BS) (sender room : BS
     accepted                       otherwise
   Events with a malformed sender / room ID (wrong sigil, no ':' where the version's IDs have one, or a
   room ID within the length limit that does not match the room-ID grammar) are outside this sentence
-  (`none`); the classes are the three the sentence distinguishes (`Outcome.coarse`). -/
+  (`none`); the classes are the three the sentence distinguishes (`Outcome.coarse`).
+  In the room versions whose room IDs have no domain, the room of a CREATE event is named by its event ID:
+  whatever `room_id` member such an event carries need not be a room ID (no well-formedness demanded), but
+  it is a field of the event and the limits apply to it. -/
 namespace Spec
 
 def maxEventBytes : Nat := 65536
@@ -182,7 +192,8 @@ def softOnly (s : Sizes) : Bool :=
     `pseudoSender`: the version's senders are pseudo-ID keys, not user IDs (org.matrix.msc4014). -/
 def wellFormedIDs (domainlessRoom pseudoSender : Bool) (s : Sizes) : Bool :=
   (pseudoSender || (s.sender.hasColon && s.sender.sigilOk)) &&
-  s.room.sigilOk && (domainlessRoom || s.room.hasColon) && (s.roomValid || s.room.bytes > maxFieldLen)
+  ((domainlessRoom && s.create) ||
+   (s.room.sigilOk && (domainlessRoom || s.room.hasColon) && (s.roomValid || s.room.bytes > maxFieldLen)))
 
 def verdict (domainlessRoom pseudoSender : Bool) (s : Sizes) : Option Outcome :=
   if !wellFormedIDs domainlessRoom pseudoSender s then none
